@@ -39,14 +39,18 @@ def gen_seq(rng, sid, focus='c01', nops=None, conf=None):
         if not up:
             rm = []
             y = rng.random()
-            if y < 0.3:
+            if y < 0.15:
                 rm = ['*.idx.hash']
-            elif y < 0.5:
+            elif y < 0.25:
                 rm = ['*.idx.hash', '*.idx.s']
-            elif y < 0.7:
+            elif y < 0.32:
                 rm = ['*.idx.s']
-            elif y < 0.85:
+            elif y < 0.40:
                 rm = ['*.idx.hash', '00%d.*.idx.s' % rng.randrange(0, 4)]
+            elif y < 0.50:
+                rm = ['@lastsplits']
+            elif y < 0.85:
+                rm = ['@subset:%d' % rng.randrange(1, 1 << 30)]
             ops.append({'op': 'open', 'rm': rm})
             up = True
             continue
@@ -89,6 +93,100 @@ def gen_seq(rng, sid, focus='c01', nops=None, conf=None):
     return {'id': sid, 'family': 'seq', 'conf': c, 'ops': ops}
 
 
+def gen_gc(rng, sid, focus='c03'):
+    """GC-centric multi-phase history: writes/deletes, restarts (tree rebuilt or not) that leave partially
+    filled files behind, a GC pass over a chosen range, then a restart with EVERY index file removed so that
+    the data files alone decide what each key reads (resurrection / loss shows here)."""
+    nkeys = rng.choice([2, 3, 3, 4])
+    keys = KEYPOOL[:nkeys]
+    fm = rng.choice([2, 3, 3, 4, 6])
+    c = {'filemax_blk': fm, 'splitcap': rng.choice([1, 2, 3, 100]), 'check_vhash': False, 'rotflush': 'auto',
+         'dump_eager': rng.random() < 0.2, 'bodymax_blk': rng.choice([1, 1, 2]) if fm > 2 else 1, 'micro': False,
+         'buckets': 16, 'bucket': rng.choice([0, 7, 15]), 'height': rng.choice([2, 3])}
+    ops = []
+
+    def writes(n):
+        for _ in range(n):
+            k = rng.choice(keys)
+            x = rng.random()
+            if x < 0.55:
+                ops.append({'op': 'set', 'k': k, 'v': rng.randrange(1, 9), 'nblk': min(rng.choice([1, 1, 2]), c['bodymax_blk'], fm)})
+            elif x < 0.9:
+                ops.append({'op': 'del', 'k': k})
+            else:
+                ops.append({'op': 'incr', 'k': k, 'd': 1})
+    phases = rng.choice([2, 3, 3, 4])
+    for ph in range(phases):
+        writes(rng.choice([1, 2, 3, 4, 6]))
+        if rng.random() < 0.7:
+            ops.append({'op': 'close'})
+            y = rng.random()
+            rm = ['*.idx.hash'] if y < 0.5 else (['*.idx.hash', '*.idx.s'] if y < 0.7 else [])
+            ops.append({'op': 'open', 'rm': rm})
+    writes(rng.choice([1, 2, 3]))
+    ops.append({'op': 'flush'})
+    ngc = rng.choice([1, 1, 2])
+    for g in range(ngc):
+        ops.append({'op': 'gc', 'begin': rng.choice([0, 1, 1, 2, 3, -1]), 'end': rng.choice([-1, -1, 1, 2, 3, 4]),
+                    'merge': False, 'twice': rng.random() < 0.3})
+        if rng.random() < 0.4:
+            writes(rng.choice([1, 2]))
+            ops.append({'op': 'flush'})
+    ops.append({'op': 'close'})
+    ops.append({'op': 'open', 'rm': rng.choice([['*.idx.*'], ['*.idx.*'], ['*.idx.hash'], ['@subset:%d' % rng.randrange(1, 1 << 30)]])})
+    ops.append({'op': 'readall'})
+    return {'id': sid, 'family': 'seq', 'conf': c, 'ops': ops}
+
+
+def gc_templates():
+    """Exhaustive enumeration of a small GC scenario grammar (about 2600 scenarios): phase 1 / restart / phase 2 /
+    restart / phase 3 / GC(range) / restart with index files removed / read everything.  Restarts leave partially
+    filled files behind (destination below the range), rebuilt trees forget tombstones (reservation rule),
+    the final rebuild from hints or data exposes resurrection and loss."""
+    P1 = [[('set', 'k')], [('set', 'k'), ('set', 'p')], [('set', 'p'), ('set', 'k')]]
+    R = [None, [], ['*.idx.hash'], ['*.idx.*']]
+    P2 = [[('del', 'k')], [('set', 'k')], [('del', 'k'), ('set', 'q')], [('set', 'q'), ('del', 'k')], [('del', 'k'), ('set', 'k')]]
+    P3 = [[('set', 'y')], [('set', 'y'), ('set', 'z')], [('del', 'k'), ('set', 'y')]]
+    GCS = [(0, -1), (1, -1), (1, 1), (2, -1), (0, 0)]
+    FIN = [['*.idx.hash'], ['*.idx.*']]
+    out = []
+    n = 0
+    for p1 in P1:
+        for r1 in R:
+            for p2 in P2:
+                for r2 in R[1:]:
+                    for p3 in P3:
+                        for g in GCS:
+                            for fin in FIN:
+                                for fm in (3, 4):
+                                    ops = []
+
+                                    def add(ph):
+                                        for o, k in ph:
+                                            ops.append({'op': 'set', 'k': k, 'v': len(ops) % 7 + 1, 'nblk': 1} if o == 'set' else {'op': 'del', 'k': k})
+                                    add(p1)
+                                    if r1 is not None:
+                                        ops += [{'op': 'close'}, {'op': 'open', 'rm': r1}]
+                                    add(p2)
+                                    ops += [{'op': 'close'}, {'op': 'open', 'rm': r2}]
+                                    add(p3)
+                                    ops += [{'op': 'flush'}, {'op': 'gc', 'begin': g[0], 'end': g[1], 'merge': False},
+                                            {'op': 'close'}, {'op': 'open', 'rm': fin}, {'op': 'readall'}]
+                                    out.append({'id': 'gct-%05d' % n, 'family': 'seq',
+                                                'conf': {'filemax_blk': fm, 'splitcap': 3, 'rotflush': 'auto', 'bodymax_blk': 1,
+                                                         'buckets': 16, 'bucket': 15, 'height': 3, 'micro': False},
+                                                'ops': ops})
+                                    n += 1
+    return out
+
+
 def gen_batch(seed, count, focus, prefix):
     rng = random.Random(seed)
-    return [gen_seq(rng, '%s-%d-%04d' % (prefix, seed, i), focus) for i in range(count)]
+    out = []
+    for i in range(count):
+        sid = '%s-%d-%04d' % (prefix, seed, i)
+        if focus in ('c03', 'c18', 'c17') and i % 2 == 0:
+            out.append(gen_gc(rng, sid, focus))
+        else:
+            out.append(gen_seq(rng, sid, focus))
+    return out
